@@ -186,7 +186,15 @@ def run_model_case(spec, keys):
             # an exception is not a side effect: whether predict may refuse this input is C04/C06's business; what C02 still
             # judges is that the failed call left the model and the data object unchanged
             I.reach("predict.raised_not_judged_here")
-            if js0 is not None and model_json(fam, m) != js0:
+            try:
+                js_after = model_json(fam, m) if js0 is not None else None
+            except Exception as e2:
+                js_after = None
+                add("failed-predict-left-the-model-unserialisable:%s:%s" % (fam.kind, type(e2).__name__),
+                    "a predict call that raised %s (%s) left the model in a state in which to_json() raises %s: %s" % (type(e).__name__, str(e)[:120], type(e2).__name__, str(e2)[:120]),
+                    history=[list(k) for k in order[:step + 1]])
+                m = copy.deepcopy(pristine)
+            if js0 is not None and js_after is not None and js_after != js0:
                 add("failed-predict-changed-serialised-model:" + fam.kind, "a predict call that raised %s left the model changed" % type(e).__name__)
             if data_fp(rdata) != rd_before:
                 add("failed-predict-modified-data-object:" + fam.kind, "a predict call that raised %s left the reporting data object changed" % type(e).__name__)
